@@ -9,7 +9,7 @@
    map (filter + ID collision check per resource); [obj_cluster_scoped t obj] = Gvk.IsClusterScoped over
    scope table t; [obj_namespace] = RNode.GetNamespace; [ns_chain] = one resource through the directives
    of its layer chain, [outermost] the last non-empty one. *)
-From KV Require Import Res.Pipeline Res.NameRefProofs Res.NamespaceSubjects.
+From KV Require Import Res.Pipeline Res.NameRefProofs Res.PipelineWfProofs Res.NamespaceSubjects Res.NamespaceBuild.
 From KV Require Import Res.Labels Res.LabelsProofs Res.Namespace Res.NamespaceProofs Res.NamespaceTree Res.NamespaceGen.
 From KV Require Import Gen.NsScope Gen.FieldSpecs.
 
@@ -178,14 +178,54 @@ Theorem Gen_binding_rules :
 Proof. exact gen_binding_rules_ok. Qed.
 Print Assumptions Gen_binding_rules.
 
-(* A subject that spells its namespace as the empty string is not recognised as designating the account in
-   the default namespace: it keeps `namespace: ""` while the account moves (finding
-   C09/subjects/empty-namespace-subject, confirmed on the implementation). *)
-Theorem C09_subjects_empty_namespace_refuted :
+(* A subject that spells its namespace as the empty string designates the account like an absent
+   namespace does and follows it (repair R-nameref-empty-namespace-subject; before the repair this statement was
+   C09_subjects_empty_namespace_refuted, finding C09/subjects/empty-namespace-subject). *)
+Theorem C09_subjects_empty_namespace :
   exists m2 r' a',
     sj_run [sj_sa "sa1"; sj_rb [Map [("kind", sj_sc "ServiceAccount"); ("name", sj_sc "sa1"); ("namespace", sj_sc "")]]] = Ok m2 /\
     nth_error m2 0 = Some a' /\ nth_error m2 1 = Some r' /\
     get_namespace (r_node a') = "prod" /\
-    sj_subjects r' = Some (Seq [Map [("kind", sj_sc "ServiceAccount"); ("name", sj_sc "sa1"); ("namespace", sj_sc "")]]).
-Proof. exact subjects_empty_namespace_refuted. Qed.
-Print Assumptions C09_subjects_empty_namespace_refuted.
+    option_map (fun s => match s with Seq es => map (fun e => (subj_str "name" e, subj_str "namespace" e)) es | _ => [] end)
+               (sj_subjects r') = Some [("sa1", "prod")].
+Proof. exact subjects_empty_namespace_follow. Qed.
+Print Assumptions C09_subjects_empty_namespace.
+
+(* ---- C09_subjects over a whole build (Pipeline.build) ----
+   Target: a kustomization whose only directive is `namespace: ns` ([ns_only ns]); its entries are well-formed
+   trees without namespace directives (w-pipe's [tree_wf]: files, sub-kustomizations with prefixes, suffixes,
+   labels, annotations, create-generators). m0 = what the entries accumulate, a function of the source tree.
+   Guards: output unsorted (no sortOptions or fifo); no accumulated resource asks for a name hash; nothing is dropped
+   as local configuration (|out| = |m0|); the designation hypotheses of C09_subjects on m0 and its image m1 under the
+   namespace transformer (all equations between computable terms of the source tree).
+   Conclusion, on the OUTPUT documents: the subject at position k of output document i has the name and namespace
+   of output document j (the account), and that namespace is ns. *)
+Theorem C09_subjects_build_partial :
+  forall (nonstr : string -> bool) (o : psort) (name ns : string) (ents : list ptree) (m0 m1 : list resource)
+         (out : list node) (rules : list nbr) (i j k : nat) (r a0 a : resource) (org : resid) (fs0 : fieldspec)
+         (tg0 : gvk) (rest : list (fieldspec * gvk)) (kvs ekvs : list (string * node)) (es : list node)
+         (name_node : node) (cands : list cand) (b : cand),
+    (o = PSortNone \/ o = PSortFifo) -> ns <> "" -> Forall tree_wf ents ->
+    Pipeline.acc_list (Pipeline.accumulate nonstr) ents [] = Ok m0 ->
+    Forall (fun r => r_needs_hash r = false) m0 ->
+    Pipeline.build nonstr o (PDir name (ns_only ns) ents) = Ok out ->
+    List.length out = List.length m0 ->
+    pipe_rules = Ok rules -> namespace_transform ns m0 = Ok m1 ->
+    nth_error m1 i = Some r -> org_id pipe_cs r = Ok org ->
+    filters_for rules org = (fs0, tg0) :: rest -> binding_rules_ok ((fs0, tg0) :: rest) = true ->
+    r_node r = Map kvs -> find_field "subjects" kvs = Some (Seq es) ->
+    nth_error es k = Some (Map ekvs) -> find_field "name" ekvs = Some name_node ->
+    nth_error m0 j = Some a0 -> nth_error m1 j = Some a ->
+    Namespace.obj_cluster_scoped gen_ns_scope (r_node a0) = false ->
+    view pipe_cs a = Ok b -> c_name b <> "" ->
+    cands_at pipe_cs m1 i = Ok cands ->
+    let x := make_ctx pipe_cs r "subjects" tg0 in
+    filter (name_kind_match x (node_value name_node)) (mapping_cands ekvs cands) = [b] ->
+    roleref_sieve x b && namespace_sieve x b = true ->
+    exists dr da es' e',
+      nth_error out i = Some dr /\ nth_error out j = Some da /\
+      map_field_value "subjects" dr = Some (Seq es') /\ nth_error es' k = Some e' /\
+      subj_str "name" e' = get_name da /\ subj_str "namespace" e' = get_namespace da /\
+      get_namespace da = ns.
+Proof. exact subjects_build. Qed.
+Print Assumptions C09_subjects_build_partial.
